@@ -1,6 +1,25 @@
 """What each registered check claims (source of MANIFEST.json; see tools/gen_manifest.py)."""
 
 CLAIMS = {
+    "C04": {
+        "text": "Each adjustment rule's body is summarised symbolically (while loops as iterate(init, condition, step)) and must be exactly the textbook "
+                "idiom: one-day linear search in its direction on is_bus_day; the settlement search with the same direction in all three places; the "
+                "four modified rules as 'F(date), unless the month differs then G(original date)' with F, G opposite members of one family; both "
+                "dispatch tables per modifier (Act = identity) and roll()'s table selection; no calendar type overrides a provided method. The idiom's "
+                "postcondition is the statement; calendars never enter the argument, so it holds for arbitrary calendars.",
+        "design_ref": "DESIGN.md §4 C04",
+        "note": "Not decided: termination; dates outside chrono's range. Trusted: lib/cel.py loop summarisation; chrono's day arithmetic.",
+        "technique": "symbolic summarisation of loops and dispatch tables over typed HIR, compared with idiom normal forms",
+    },
+    "C05": {
+        "text": "add_bus_days is flattened to its paths: a non-business start gives Err first; under days<0 the counted loop is 'c from 0, step "
+                "roll_backward(x-1 day), c-1, while c>days' and the settlement roll is backward, otherwise the forward mirror (n=0 forward); lag's four "
+                "cases with the +/-1 count adjustment; bus_date_range = collect while x<=end stepping add_bus_days(x,1,false); add_days = signed shift "
+                "then roll with arguments passed through. Integer comparisons are normalised (a<=b == a<b+1), so equivalent spellings are accepted.",
+        "design_ref": "DESIGN.md §4 C05",
+        "note": "Not decided: the count/inverse law evaluated on a concrete calendar (follows from the idiom + C04), termination, i8 extremes (C20).",
+        "technique": "path flattening of symbolic summaries (loops as iterate forms) compared with expected path sets",
+    },
     "C03": {
         "text": "Alignment discipline decided structurally: to_new_vars is evaluated for every relationship hint and must be relabelling only for "
                 "Arc/ValueEquivalent and otherwise a gather-by-name with zero default (one shared index vector for both Hessian axes); to_union_vars "
